@@ -134,6 +134,22 @@ def hook_suite(name, quick, thorough, length=40, extra=None):
     }
 
 
+def hook_conc_suite(name, quick, thorough, length=12):
+    """C07 'for concurrent mutators checked at quiescence': a sequential prefix, then 2-3 goroutines mutate shared tasks
+    through the observable wrapper at once (race-detector build); the predicate is evaluated on the final observation"""
+    return {
+        "name": name, "cmd": ["hook", "--concurrent", "--len", str(length)], "race": True,
+        "header": "From GK Require Import SysCheck.\nOpen Scope string_scope.\nOpen Scope list_scope.\nOpen Scope Z_scope.",
+        "hist_type": "bool * hobs",
+        "eval": "Definition M : list (nat * nat) := [].\nPrint M.\n"
+                "Definition V := Eval vm_compute in map (fun k => (k, 0%nat)) (filter (fun k => match nth_error cases k with Some (st, ob) => negb (c07_ok st ob) | None => false end) (seq 0 (List.length cases))).\nPrint V.",
+        "diag": "Eval vm_compute in nth_error cases {k}.",
+        "show": "Eval vm_compute in nth_error cases {k}.",
+        "sig": "false",
+        "quick": quick, "thorough": thorough,
+    }
+
+
 def lin_suite(name, impl, quick, thorough, extra=None):
     return {
         "name": name, "cmd": ["lin", "--impl", impl] + (extra or []),
@@ -225,6 +241,7 @@ SUITES = {
     "C07": {"suites": [
         hook_suite("c07-hook", {"n": 40, "shards": 8}, {"n": 400, "shards": 16}),
         hook_suite("c07-hook-faults", {"n": 30, "shards": 4}, {"n": 300, "shards": 16}, extra=["--faults"]),
+        hook_conc_suite("c07-hook-concurrent", {"n": 150, "shards": 4}, {"n": 1500, "shards": 16}),
     ]},
     "C08": {"suites": [
         pool_suite("c08-pool", {"n": 40, "shards": 8}, {"n": 400, "shards": 16}),
